@@ -185,6 +185,9 @@ func runC06(r *run) {
 			slog.SetLevelColors(slog.Level(c.lvl), color.Color(fg), color.Color(bg))
 			r.emit(fmt.Sprintf("C17 setcolors %d %d %d", c.lvl, fg, bg), "ok")
 		}
+		if i%10 == 4 {
+			encPanicNoise([]string{"c", "l", "j"}[(i/10)%3])
+		}
 		if i%10 == 9 {
 			encStringerNoise([]string{"l", "j", "c"}[(i/10)%3])
 		}
